@@ -9,6 +9,11 @@ def cmd(pid, tier):
 
 # id -> (category, engine, technique, level text, level note, design ref)
 CHECKS = {
+ "C08": ("exploration", "ENUM",
+   "bounded-exhaustive enumeration of (limit, response shape, payload size) and batch layouts; differential against a server with the limit disabled; every wire frame measured",
+   "For every limit 40..260 (thorough ..330) and {1024, 65536} and each of 30 response shapes, every payload size whose unlimited reply length is within limit+-3 is requested over HTTP and WS: a fitting reply must be byte-identical to the unlimited server's, a too-big one must be -32008 with the call's id; batches of 1..4 entries with total array length limit-2..limit+2 and the adjustable entry at every position (array byte-identical or -32011); WS subscribe responses with subscription ids of controlled width; full 1-step sweep of MethodResponse::response / BatchResponseBuilder; handler log identical with and without limit.",
+   "Payload classes are the 5 listed; in-memory transports.",
+   "DESIGN.md §6 C08"),
  "C07": ("exploration", "ENUM",
    "bounded-exhaustive enumeration of a (request limit, response limit) x message size x padding x entry point x body framing grid, handler log as oracle",
    "8 limit pairs incl. unequal ones x sizes limit-2..limit+2, 1.5x, 2x, 10x x 3 padding styles x {TowerService HTTP, TowerService WS, http::call_with_service_builder, http::call_with_service, ws::connect} x 6 HTTP framings (Content-Length exact/absent/lying, 1/3/many frames); the message is always a valid call, so 'processed' is observable as 'handler ran once'; over the limit => no handler, -32007 / HTTP error status and the WS connection answers a later call; a second sweep holds the request limit and varies the response limit to show independence.",
